@@ -36,6 +36,12 @@ theorem never_duplicate_from_any_state (cfg : Config) (st : State) (bs : List En
 example : results cfg0 st0 [[], [(s "id", s "a")], [(s "id", s "a"), (s "title", s "A b c")], []] =
     [.name (s "index.html"), .name (s "a.html"), .name (s "A-b.html"), .name (s "sect002.html")] := by decide
 
+/-- names are compared code point by code point, and the name handed out is exactly the one that was checked:
+    canonically equivalent spellings (precomposed / combining accent) are two different fresh names, and a
+    repeated spelling is skipped as taken -/
+example : results cfg0 st0 [[], [(s "id", s "r\u00e9sum\u00e9")], [(s "id", s "re\u0301sume\u0301")], [(s "id", s "r\u00e9sum\u00e9")]] =
+    [.name (s "index.html"), .name (s "r\u00e9sum\u00e9.html"), .name (s "re\u0301sume\u0301.html"), .name (s "sect002.html")] := by decide
+
 /-- **A request never loops**: it runs at most `passBound + 1` wildcard passes and tries at most
     `|statics| + (passBound + 1)·|wildcard|` candidates (the function is total by construction). -/
 theorem request_terminates (cfg : Config) (st : State) (b : Env) :
